@@ -166,6 +166,11 @@ func runE2E(c *e2eCase, env *e2eEnv) string {
 	resps := make([]*e2eResp, len(c.reqs))
 	if neg == "h2" {
 		m, err := h2Exchange(conn, c.frames, c.reqs)
+		if err != nil && strings.Contains(err.Error(), "goaway:INADEQUATE_SECURITY") {
+			// the HTTP/2 server refuses TLS parameters RFC 7540 9.2 prohibits (TLS < 1.2, black-listed TLS 1.2 cipher
+			// suites) before any request: the connection is not one the server accepts
+			return "fail=h2-inadequate-security"
+		}
 		if err != nil {
 			fmt.Fprintf(&sb, " h2err=%s", strings.ReplaceAll(err.Error(), " ", "_"))
 		}
